@@ -93,6 +93,10 @@ pub enum WKind {
     Huge,
     /// uniform 1e10
     Giant,
+    /// uniform 1e20: finite in both scalar widths, its square is not in f32
+    Astro,
+    /// uniform 1e-18 (every singular value of the weighted basis matrix lies below machine epsilon)
+    Atto,
     /// spread 1e-3 .. 1e3
     Spread,
     /// ramp with weight i == pos set to zero
@@ -122,6 +126,8 @@ impl WKind {
             WKind::Tiny => Some(vec![5e-4; n]),
             WKind::Huge => Some(vec![2e3; n]),
             WKind::Giant => Some(vec![1e10; n]),
+            WKind::Atto => Some(vec![1e-18; n]),
+            WKind::Astro => Some(vec![1e20; n]),
             WKind::Spread => Some((0..n).map(|i| 10f64.powf(-3.0 + 6.0 * (((i * 7) % n) as f64) / ((n.max(2) - 1) as f64))).collect()),
             WKind::ZeroAt(p) => Some((0..n).map(|i| if i == *p % n { 0.0 } else { ramp(i) }).collect()),
             WKind::NegAt(p) => Some((0..n).map(|i| if i == *p % n { -ramp(i) } else { ramp(i) }).collect()),
@@ -168,6 +174,8 @@ impl WKind {
             "Tiny" => WKind::Tiny,
             "Huge" => WKind::Huge,
             "Giant" => WKind::Giant,
+            "Atto" => WKind::Atto,
+            "Astro" => WKind::Astro,
             "NegRamp" => WKind::NegRamp,
             "Spread" => WKind::Spread,
             o => panic!("wkind {}", o),
